@@ -136,8 +136,8 @@ fn vt_of_rsdd(t: &VTree) -> VT {
 }
 /// random CNF over the labels: 0..5 clauses of 0..4 literals; edge stream: empty formula, empty
 /// clause, unit clauses, repeated and complementary literals
-fn gen_cnf(rng: &mut Rng, labels: &[u64]) -> Vec<Vec<(u64, bool)>> {
-    let n = if rng.chance(1, 12) { 0 } else { rng.range(1, 5) };
+fn gen_cnf(rng: &mut Rng, labels: &[u64], maxcl: usize) -> Vec<Vec<(u64, bool)>> {
+    let n = if rng.chance(1, 12) { 0 } else { rng.range(1, maxcl) };
     let mut f = vec![];
     for _ in 0..n {
         let len = if rng.chance(1, 15) { 0 } else if rng.chance(1, 5) { 1 } else { rng.range(1, 4) };
@@ -261,7 +261,14 @@ pub fn gen(rng: &mut Rng, idx: usize, n: usize, thorough: bool) -> String {
     // a third of the cases compile CNFs; half of those under the vtree the library derives from
     // the first CNF (VTree::from_dtree(DTree::from_cnf(.., min_fill_order)))
     let cnf_case = rng.chance(1, 3);
-    let first_cnf = gen_cnf(rng, &labels);
+    // uncompressed SDDs of CNFs blow up quickly: keep those cases small
+    let small = cnf_case && !compress;
+    if small && labels.len() > 5 {
+        labels.truncate(5);
+        vt = vt_random(rng, &labels);
+    }
+    let maxcl = if small { 3 } else { 5 };
+    let first_cnf = gen_cnf(rng, &labels, maxcl);
     let mut dtree_vt = false;
     if cnf_case && rng.coin() {
         // the derived vtree only has the CNF's variables: restrict the labels to them
@@ -274,11 +281,16 @@ pub fn gen(rng: &mut Rng, idx: usize, n: usize, thorough: bool) -> String {
             dtree_vt = true;
         }
     }
-    let _ = dtree_vt;
+    if dtree_vt && std::env::var("C03_DUMP").is_ok() {
+        eprintln!("DTREE-VTREE {}", vt_text(&vt));
+    }
     let maxops = if thorough { 40 } else { 26 };
     let mut nops = 4 + (frac * maxops) / 100 + rng.range(0, 4);
     if !compress {
         nops = nops.min(if thorough { 22 } else { 16 });
+    }
+    if small {
+        nops = nops.min(9);
     }
     let mut s = format!("{} {} {} ;", compress as u8, cap, vt_text(&vt));
     let mut len = 0usize;
@@ -308,7 +320,7 @@ pub fn gen(rng: &mut Rng, idx: usize, n: usize, thorough: bool) -> String {
         let k = rng.below(len as u64) as usize;
         let v = *rng.pick(&labels);
         let op = match rng.below(if cnf_case { 108 } else { 100 }) {
-            100..=107 => cnf_text(&gen_cnf(rng, &labels)),
+            100..=107 => cnf_text(&gen_cnf(rng, &labels, maxcl)),
             0..=7 => lit(rng),
             8..=9 => (if rng.coin() { " t" } else { " f" }).to_string(),
             10..=14 => format!(" n {i}"),
